@@ -2,5 +2,5 @@
    Only ExtrOcamlBasic is used: bool, option, unit, prod, list, sumbool map to their OCaml counterparts;
    Z / positive / N / nat stay the extracted inductive types. No Extract Constant. *)
 Require Import ExtrOcamlBasic.
-From SP Require Import Sim AddressModel.
-Extraction "spmodel.ml" run_case uri_dissect hostserv_dissect regex_subjects_uri regex_subjects_hostserv to_string_model view_eq view_lt c_str exn_code.
+From SP Require Import Sim AddressModel AcceptSync.
+Extraction "spmodel.ml" run_case uri_dissect hostserv_dissect regex_subjects_uri regex_subjects_hostserv to_string_model view_eq view_lt c_str exn_code accept_sync.
